@@ -1302,7 +1302,7 @@ class C15(SimSpec):
         "HPC and local mode, random schedules incl. user try-submit-jobs / show-status on the current stage; a slice with a killed node (missing jobs -> non-zero stage return code) and a slice in "
         "which, after the pipeline completed, the user runs resubmit-jobs on one stage (that stage completes again: later stages and pipeline.json must be left alone); oracle on boundary events: stage k+1's config.json is first written only "
         "after stage k was observed complete (lock-free observation and on-disk flag), each stage configured once, one submit-next-stage per completion, pipeline.json stage_num / "
-        "return codes / is_complete match what happened; non-trivial = >= 2 stages submitted and completed; distinct adds the number of stages"
+        "return codes / is_complete match what happened; in a third of the pipelines every stage has its own teardown command, which must have run before the next stage is configured; non-trivial = >= 2 stages submitted and completed; distinct adds the number of stages"
     )
 
     def gen(self, rng, i, tier):
@@ -1335,6 +1335,7 @@ class C15(SimSpec):
             scen["squeue_vocab"] = "full"
             scen["user"] = {"try_submit": rng.choice([2, 3, 4]), "show_status": 0, "p": rng.choice([0.03, 0.08]), "late_try": 2}
             scen["policy"]["finish_w"] = rng.choice([0.02, 0.05])
+        scen["stage_teardown"] = i % 3 == 1  # every stage has its own teardown command; stage k+1 only after stage k's teardown
         if i % 10 == 9 and ns >= 2:
             # an error (EDQUOT at one of its writes) hits a `jade pipeline submit-next-stage` command somewhere between its first and
             # its last file operation; the user then runs the same command again: a stage is never configured twice
@@ -1381,6 +1382,8 @@ class C15(SimSpec):
         c["pipelines_with_a_stage_rejected_by_sbatch"] = sum(1 for t in tasks if (t["args"]["scen"].get("faults") or {}).get("sbatch_fail_re"))
         c["nonzero_stage_return_codes_seen"] = total(ok, "nonzero_stage_rcs")
         c["local_mode_runs"] = sum(1 for t in tasks if t["args"]["scen"].get("mode") == "local")
+        c["pipelines_whose_stages_have_a_teardown_command"] = sum(1 for t in tasks if t["args"]["scen"].get("stage_teardown"))
+        c["stage_submissions_checked_against_the_previous_stage_teardown"] = total(ok, "teardown_checks")
         return c
 
     def floors(self, cov):
